@@ -20,7 +20,7 @@ def rawhex(raw):
 
 def act_harness(a):
     k = a[0]
-    if k in ("new", "setnum", "measure", "sample", "threads", "view"):
+    if k in ("new", "setnum", "measure", "sample", "threads", "view", "clonefrom"):
         return "%s %d" % (k, a[1])
     if k in ("freq", "samplestats"):
         return "%s %d %d" % (k, a[1], a[2])
@@ -111,8 +111,8 @@ def model_actions(acts, recs):
             items.append("AWith %s %s" % (cN(a[1]), cN(a[2])))
         elif k == "raw":
             items.append("ARaw %s %s" % (cN(a[1]), clist([ccomplex(z) for z in a[2]])))
-        elif k in ("threads", "polar", "freq", "seqfreq", "samplestats"):
-            continue
+        elif k in ("threads", "polar", "freq", "seqfreq", "samplestats", "clonefrom"):
+            continue        # (a copy made by Clone::clone_from into an existing register is the same register)
         elif k == "view":
             if ri >= len(recs) or recs[ri][0] != "w":
                 break
@@ -484,3 +484,46 @@ def oracle_views(acts, recs):
             elif r[1] and r[2] != m:
                 fails.append("get_vreg_by(%d)[..] = %d" % (m, r[2]))
     return fails
+
+
+# ---------------------------------------------------------------- registers too large for the model's buffers
+def run_unmodelled(run, binary, hists, oracle, deadline=120.0):
+    """histories on registers of 15+ qubits (beyond any block of cells a kernel might work in; too large for the model's
+    list buffers): implementation only, judged by the property's own oracle.  Returns the number of histories."""
+    texts = [("u%d" % i, hist_harness(s, a)) for i, (s, a) in enumerate(hists)]
+    impl = run_harness(binary, "reg", texts, deadline=deadline)
+    found = 0
+    for i, (s, a) in enumerate(hists):
+        recs = parse_records(impl.get("u%d" % i, "ABORT missing"))
+        fails = oracle(a, recs)
+        if fails:
+            found += 1
+            if found <= 3:
+                rep = describe_hist(s, a)
+                rep.update({"what": "the property fails on the implementation for this history (register too large for the "
+                                    "model's buffers: judged on implementation results only)",
+                            "failures": fails[:5], "impl_records": summarize(recs)})
+                run.violation(rep)
+    return len(hists)
+
+
+def wide_histories(rng, tier, observe):
+    """registers of 15-16 qubits, serial and threaded, basis states with high qubits set, stirred by gates and controlled
+    gates on the highest qubits (superposing only a few, so that the state stays sparse); then `observe(rng, n, hi)`"""
+    hs = []
+    ks = [1] + thread_counts()[:3]
+    for rep in range(6 if tier == "quick" else 40):
+        n = rng.choice([15, 16])
+        k = ks[rep % len(ks)]
+        hi = rng.sample(range(12, n), 3)
+        lo = rng.sample(range(0, 12), 2)
+        j = rng.getrandbits(n) | (1 << hi[0]) if rep % 2 == 0 else rng.getrandbits(n)
+        acts = [("with", n, j)] + ([("threads", k)] if k > 1 else [])
+        acts += [("apply", ("h", (1 << hi[1]) | (1 << lo[0]))),
+                 ("apply", ("c", 1 << hi[1], ("x", 1 << hi[2]))),
+                 ("apply", ("c", 1 << hi[0], (rng.choice(["x", "y", "h"]), 1 << lo[1]))),
+                 ("apply", ("c", (1 << hi[2]) | (1 << hi[0]), ("rx", 1.1, 1 << lo[0]))),
+                 ("apply", ("c", 1 << lo[0], ("ry", 0.7, 1 << hi[0])))]
+        acts += observe(rng, n, hi)
+        hs.append((rng.randrange(1 << 30), acts))
+    return hs
